@@ -1454,11 +1454,12 @@ class FuncEval(ValueFunc):
         s = args.getString("s").value
         try:
             node = parse_script(s, pos.filename)
-            return node.evaluate(environment)
         except Exception:
             raise CklRuntimeError(
                 ValueString("ERROR"), "Cannot evaluate expression", pos
             )
+        # errors raised by the evaluated code propagate unchanged
+        return node.evaluate(environment)
 
 
 class FuncExecute(ValueFunc):
